@@ -28,7 +28,12 @@
    Not modelled (stated boundary): robots.txt (checks run with --no-robots; C20), cookies,
    authentication loop, FTP, plugins/hooks, the >= 1000 children mid-scrape flush (same
    inserts in the same order, only more commit points while the parent is in progress),
-   the hostnames table (C02, F33). *)
+   the scraper's link order (a set iteration order: an input of the site).
+
+   The hostnames table (sqltable.add_many, after the F33 repair: only rows of level 0, i.e.
+   the URLs given on the command line, contribute) and its single read at start-up
+   (URLFiltersPostURLImportSetupTask, after InputURLTask) into the span-hosts filter are
+   modelled: [st_hosts] is persistent, [st_span] is what the running process holds. *)
 From Coq Require Import List NArith Bool Arith.
 Import ListNotations.
 Open Scope N_scope.
@@ -71,6 +76,14 @@ Definition add_one (t : table) (i : rinfo) : table :=
   if has_url (ri_url i) t then t else t ++ [new_row i].
 Definition add_many (l : list rinfo) (t : table) : table := fold_left add_one l t.
 
+(* the rows add_many really inserted (QueuedURL.watch_urls_inserted), in order *)
+Definition added (l : list rinfo) (t : table) : list rinfo :=
+  map r_info (skipn (length t) (add_many l t)).
+
+(* INSERT OR IGNORE INTO hostnames *)
+Definition add_host (hs : list N) (h : N) : list N :=
+  if existsb (N.eqb h) hs then hs else hs ++ [h].
+
 (* UPDATE ... WHERE url = u *)
 Definition upd (u : url) (f : row -> row) (t : table) : table :=
   map (fun r => if r_url r =? u then f r else r) t.
@@ -112,7 +125,10 @@ Inductive mode := Down | Starting | Running.
 Definition logent := (url * url * bool)%type.
 
 Record state := mkState {
-  st_tbl : table; st_items : list item; st_log : list logent;
+  st_tbl : table;
+  st_hosts : list N;                  (* the hostnames table (persistent) *)
+  st_span : list N;                   (* SpanHostsFilter._hostnames of the running process (volatile) *)
+  st_items : list item; st_log : list logent;
   st_colog : list url;                (* ghost: URLs checked out, newest first *)
   st_mode : mode }.
 
@@ -126,13 +142,11 @@ Inductive label :=
 
 Definition start_info (u : url) : rinfo := mkInfo u 0 None u u.
 
-Section Engine.
+Section Plan.
   Variable site : url -> page.
   (* the filter verdict: is_redirect, tested URL, record (fixed columns), try_count *)
   Variable in_scope : bool -> url -> rinfo -> N -> bool.
   Variable maxredir : nat.
-  Variable starts : list url.
-  Variable conc : nat.
 
   (* ItemSession.add_child_url / child_url_record *)
   Definition child_info (p : rinfo) (l : url * bool) : rinfo :=
@@ -168,6 +182,24 @@ Section Engine.
   Definition plan (p : rinfo) (tries : N) : list action :=
     if in_scope false (ri_url p) p tries then fetch maxredir p tries (ri_url p) true
     else [ACheckIn Skipped].
+
+End Plan.
+
+Section Engine.
+  Variable site : url -> page.
+  Variable host : url -> N.            (* URLInfo.hostname of a table URL *)
+  (* the filter verdict given the span-hosts list the process loaded at start-up *)
+  Variable in_scope : list N -> bool -> url -> rinfo -> N -> bool.
+  Variable maxredir : nat.
+  Variable starts : list url.
+  Variable conc : nat.
+
+  (* add_many: hostnames of the inserted rows of level 0 *)
+  Definition hosts_after (l : list rinfo) (t : table) (hs : list N) : list N :=
+    fold_left add_host (map (fun i => host (ri_url i)) (filter (fun i => ri_level i =? 0) (added l t))) hs.
+
+  Definition apply_hosts (a : action) (t : table) (hs : list N) : list N :=
+    match a with AAddMany l => hosts_after l t hs | _ => hs end.
 
   Definition apply_tbl (u : url) (a : action) (t : table) : table :=
     match a with
@@ -220,14 +252,15 @@ Section Engine.
         match pick (st_tbl s) with
         | None => None
         | Some r =>
-            Some (mkState (upd (r_url r) (set_status InProgress) (st_tbl s))
-                          (st_items s ++ [mkItem (r_info r) (r_tries r) false (plan (r_info r) (r_tries r))])
+            Some (mkState (upd (r_url r) (set_status InProgress) (st_tbl s)) (st_hosts s) (st_span s)
+                          (st_items s ++ [mkItem (r_info r) (r_tries r) false
+                                                 (plan site (in_scope (st_span s)) maxredir (r_info r) (r_tries r))])
                           (st_log s) (r_url r :: st_colog s) Running)
         end
     | LStart, Running =>
         if (n_started (st_items s) <? conc)%nat then
           match start_first (st_items s) with
-          | Some its => Some (mkState (st_tbl s) its (st_log s) (st_colog s) Running)
+          | Some its => Some (mkState (st_tbl s) (st_hosts s) (st_span s) its (st_log s) (st_colog s) Running)
           | None => None
           end
         else None
@@ -235,17 +268,20 @@ Section Engine.
         match act_items n (st_items s) with
         | Some (it, a, its) =>
             let u := ri_url (it_info it) in
-            Some (mkState (apply_tbl u a (st_tbl s)) its (apply_log u a (st_log s)) (st_colog s) Running)
+            Some (mkState (apply_tbl u a (st_tbl s)) (apply_hosts a (st_tbl s) (st_hosts s)) (st_span s)
+                          its (apply_log u a (st_log s)) (st_colog s) Running)
         | None => None
         end
-    | LCrash, _ => Some (mkState (st_tbl s) [] (st_log s) (st_colog s) Down)
-    | LRelease, Down => Some (mkState (release (st_tbl s)) [] (st_log s) (st_colog s) Starting)
+    | LCrash, _ => Some (mkState (st_tbl s) (st_hosts s) [] [] (st_log s) (st_colog s) Down)
+    | LRelease, Down => Some (mkState (release (st_tbl s)) (st_hosts s) [] [] (st_log s) (st_colog s) Starting)
     | LAddStarts, Starting =>
-        Some (mkState (add_many (map start_info starts) (st_tbl s)) [] (st_log s) (st_colog s) Running)
+        (* InputURLTask.add_many, then URLFiltersPostURLImportSetupTask reads the hostnames table *)
+        let hs := hosts_after (map start_info starts) (st_tbl s) (st_hosts s) in
+        Some (mkState (add_many (map start_info starts) (st_tbl s)) hs hs [] (st_log s) (st_colog s) Running)
     | _, _ => None
     end.
 
-  Definition init : state := mkState [] [] [] [] Down.
+  Definition init : state := mkState [] [] [] [] [] [] Down.
 
   Definition is_crash (l : label) : bool := match l with LCrash => true | _ => false end.
 
@@ -293,29 +329,12 @@ Section Engine.
     match fire LRelease s with Some s1 => fire LAddStarts s1 | None => None end.
 
   (* a whole (re)run of the command on the database [t]: start-up, then crawl *)
-  Definition run_on (fuel : nat) (t : table) (lg : list logent) : option state :=
-    match boot (mkState t [] lg [] Down) with
+  Definition run_on (fuel : nat) (t : table) (hs : list N) (lg : list logent) : option state :=
+    match boot (mkState t hs [] [] lg [] Down) with
     | Some s => seq_run fuel s
     | None => None
     end.
 
-  (* the URLs a visit of the record [p] (checked out with [tries]) adds to the table *)
-  Fixpoint adds_of (l : list action) : list rinfo :=
-    match l with
-    | [] => []
-    | AAddMany k :: l' => k ++ adds_of l'
-    | _ :: l' => adds_of l'
-    end.
-  Definition kids (p : rinfo) (tries : N) : list rinfo := adds_of (plan p tries).
-
-  (* "no fetch fails": from [u], at most [fuel] redirects lead to a page that is not an error *)
-  Fixpoint resolves (fuel : nat) (u : url) : bool :=
-    match site u with
-    | Doc _ _ | NoDoc _ => true
-    | Err _ => false
-    | Redirect _ None => false
-    | Redirect _ (Some t) => match fuel with O => false | S f => resolves f t end
-    end.
 End Engine.
 
 (* ---- finite sites for evaluation ---- *)
